@@ -6,6 +6,9 @@
 (* model of the NumPy constructions of the code; and judge of the          *)
 (* observations recorded from the implementation for the cases this very   *)
 (* module emits (Emit = TRUE writes cases_layout.json).                    *)
+(* Further cases: grids scaled by 2^-k, unsorted 1D nodes, large shapes    *)
+(* with sampled indices (JudgeBig), tensor products of real 1D quadratures *)
+(* (tuple law on node positions), grid attributes (JudgeAttrs).            *)
 (***************************************************************************)
 EXTENDS Cubic, SequencesExt, Json, Obs_layout   \* Obs_layout: LayoutObs (generated; <<>> when emitting)
 
